@@ -109,7 +109,24 @@ mod verif_c07 {
         assert!(b == a.translate(d));
         kani::cover!(!sp::is_empty(&a.fill_area()));
     }
-    //@harness prop=C07 kind=lemma tier=quick class=P timeout=1500 fns=src/primitives/rectangle/styled.rs::Rectangle::draw_styled
+    /// one-run form: the translated rectangle drawn on a target with an arbitrary bounding box paints
+    /// q + d with the colour the statement of C06 prescribes for q from the UNtranslated areas
+    //@harness prop=C07 kind=lemma tier=quick class=P timeout=900 fns=src/primitives/rectangle/styled.rs::Rectangle::draw_styled
+    #[kani::proof]
+    fn c07_rectangle_draw_translated_probe() {
+        let d = any_point(D);
+        let r = any_rect(D);
+        let style = any_style(2048);
+        let q = any_point(4 * D);
+        let s0 = r.into_styled(style);
+        let (fa, sa) = (s0.fill_area(), s0.stroke_area());
+        let mut b = ProbeNative::<Gray8>(ProbeState::new(shift(q, d), any_rect(D), everything()));
+        r.translate(d).into_styled(style).draw(&mut b).unwrap();
+        let expected = if sp::contains(&fa, q) { style.fill_color } else if sp::contains(&sa, q) && style.stroke_width > 0 { style.stroke_color } else { None };
+        assert!(b.0.last == expected);
+        kani::cover!(expected.is_some());
+    }
+    //@harness prop=C07 kind=lemma tier=thorough class=P timeout=3000 fns=src/primitives/rectangle/styled.rs::Rectangle::draw_styled
     #[kani::proof]
     fn c07_rectangle_draw_commutes() {
         let d = any_point(D);
